@@ -15,6 +15,9 @@ import time
 ROOT = os.path.dirname(os.path.dirname(os.path.abspath(__file__)))
 OUT = os.path.join(ROOT, 'out')
 EVID = os.path.join(ROOT, 'evidence')
+if os.environ.get('VERIF_SELFTEST') or os.path.abspath(os.environ.get('VERIF_REPO', '/repo')) != '/repo':
+    # runs against scratch copies (mutants, seeded changes) never touch the committed evidence
+    EVID = os.path.join(OUT, 'scratch-evidence', str(os.getpid()))
 KNOWN_FILE = os.path.join(ROOT, 'known_findings.json')
 
 EXIT_HELD, EXIT_VIOLATED, EXIT_INCONCLUSIVE = 0, 1, 2
